@@ -56,6 +56,11 @@ typedef struct {
     m_src_task_t tid;
     pthread_t th;
     int retval;
+    struct _ctx *ctx;                       // ctx whose thread pool runs the task (the owning module may be gone when the task ends)
+#ifdef __linux__
+    int wfd;                                // descriptor the pool thread signals completion through: its own duplicate, since f.fd belongs to the loop thread (that closes it when the source stops being polled)
+    bool notified;                          // the pool thread has used (and closed) wfd
+#endif
 } task_src_t;
 
 /* Struct that holds thresh to self_t mapping for poll plugin */
@@ -112,3 +117,4 @@ int deregister_mod_int_tmr(m_mod_t *mod, const m_src_tmr_t *its, const void *use
 ev_src_t *register_ctx_src(m_ctx_t *c, m_src_types type, process_cb proc, const void *src_data);
 int deregister_ctx_src(m_ctx_t *c, ev_src_t **src);
 int start_task(m_ctx_t *c, ev_src_t *src);
+void release_tasks(m_ctx_t *c);
